@@ -34,6 +34,11 @@ PATTERN_SETS = [
     ("keep_path", ["--keep-path", "**/a/**"]),
     ("name_keep", ["--name", "f*", "--keep-name", "f2"]),
     ("two_names", ["--name", "f0", "--name", "f3"]),
+    # both kinds of keep pattern at once, each file matching at most one of them: protected by EITHER
+    ("keep_name_and_path", ["--keep-name", "f3", "--keep-path", "**/a/**"]),
+    ("keep_path_and_name", ["--keep-path", "**/x/**", "--keep-name", "f2"]),
+    # both kinds of drop pattern at once (every file matches both or neither: the reading of a partial match is open)
+    ("name_and_path", ["--name", "f[34]", "--path", "**/r1x/**"]),
     # brace alternations: the comma belongs to the pattern
     ("keep_brace", ["--keep-name", "f{0,2}"]),
     ("name_brace", ["--name", "f{1,3,4}"]),
